@@ -10,4 +10,24 @@ impl<T> AtomicCell<T> {
     pub fn swap(&self, v: T) -> T {
         std::mem::replace(&mut *self.0.lock().unwrap(), v)
     }
+    /// crossbeam's `store`: an exchange whose old value is dropped
+    pub fn store(&self, v: T) {
+        drop(self.swap(v));
+    }
+    pub fn into_inner(self) -> T {
+        self.0.into_inner().unwrap()
+    }
+}
+
+impl<T: Default> AtomicCell<T> {
+    /// crossbeam's `take`: exchange with the default value
+    pub fn take(&self) -> T {
+        self.swap(T::default())
+    }
+}
+
+impl<T: Copy> AtomicCell<T> {
+    pub fn load(&self) -> T {
+        *self.0.lock().unwrap()
+    }
 }
